@@ -204,7 +204,7 @@ def find(ctx, c, img, h):
     return sf.find_sources_in_image(fn, **kw)
 
 
-CASE_TIMEOUT = 90   # seconds of wall time for one find_sources_in_image run on a <= 256x256 image (normal: 0.05 - 3 s)
+CASE_TIMEOUT = 45   # seconds of wall time for one find_sources_in_image run on a <= 256x256 image (normal: 0.05 - 3 s)
 
 
 class CaseTimeout(Exception):
@@ -221,12 +221,50 @@ def with_timeout(seconds, fn, *args):
         old = signal.signal(signal.SIGALRM, onalarm)
     except ValueError:      # not in the main thread: run unguarded
         return fn(*args)
-    signal.alarm(int(seconds))
+    # re-fire every 2 s after the deadline: an exception raised inside a MINPACK callback or under a broad `except`
+    # of the code under test may be swallowed once
+    signal.setitimer(signal.ITIMER_REAL, float(seconds), 2.0)
     try:
         return fn(*args)
     finally:
-        signal.alarm(0)
+        signal.setitimer(signal.ITIMER_REAL, 0.0)
         signal.signal(signal.SIGALRM, old)
+
+
+def _child(conn, ctx_tmp, c, data, h):
+    class T(object):
+        def tmpdir(self):
+            return ctx_tmp
+    try:
+        out = find(T(), c, data, h)
+        conn.send(('ok', out))
+    except BaseException as e:     # noqa: B902 - report whatever happened to the parent
+        conn.send(('err', f"{type(e).__name__}: {e}"))
+    finally:
+        conn.close()
+
+
+def find_in_child(seconds, ctx, c, data, h):
+    """find() in a forked child that is killed after `seconds`: a mutated tree can send MINPACK into a fit of the whole
+    image (a pedestal that is not removed), which no in-process alarm interrupts"""
+    import multiprocessing as mp
+    mpc = mp.get_context('fork')
+    parent, child = mpc.Pipe(duplex=False)
+    p = mpc.Process(target=_child, args=(child, ctx.tmpdir(), c, data, h))
+    p.start()
+    child.close()
+    try:
+        if not parent.poll(seconds):
+            raise CaseTimeout(f"no result after {seconds} s")
+        kind, val = parent.recv()
+    finally:
+        if p.is_alive():
+            p.kill()
+        p.join(5)
+        parent.close()
+    if kind == 'err':
+        raise RuntimeError(val)
+    return val
 
 
 def symmetrize(img, xy):
@@ -348,7 +386,10 @@ def loop_case(ctx, c, record=True):
     if c.get('pedestal'):
         data = data + float(c['pedestal'])
     try:
-        out = with_timeout(CASE_TIMEOUT, find, ctx, c, data, h)
+        if c.get('opts'):
+            out = find_in_child(CASE_TIMEOUT, ctx, c, data, h)
+        else:
+            out = with_timeout(CASE_TIMEOUT, find, ctx, c, data, h)
     except Exception as e:  # the finder must not raise (or stall) on a valid image
         if record:
             ctx.case(c)
@@ -944,8 +985,14 @@ def run(ctx):
     # corpus + the witness of the open known finding first
     for c in [KNOWN_INT_FLUX, KNOWN_SPLIT_CORNER, KNOWN_SPLIT_RIDGE] + load_corpus():
         loop_case(ctx, c)
+    stalled = set()
     for c in option_cases(ctx.rng):
-        loop_case(ctx, c)
+        if c.get('opts') in stalled:       # one stalled run per option set is enough evidence; do not wait for the others
+            ctx.count('skipped-after-stall:' + c['opts'])
+            continue
+        bad, _ = loop_case(ctx, c)
+        if 'raises' in bad and ctx.failures and 'CaseTimeout' in str(ctx.failures[-1]['detail']):
+            stalled.add(c.get('opts'))
     corr_leaves(ctx)
     corr_residual(ctx)
     corr_convert(ctx)
